@@ -603,8 +603,8 @@ class Runner {
   }
   void do_set(const Target& t, const Scalar& sc) {
     set_hole(t);
-    bool assign_op = false;
-    note(render_target(t) + (t.form == 0 ? ".set(" : (assign_op ? " = (" : ".set(")) + render_scalar(sc) + ")");
+    bool assign_op = sc.assign;
+    note(render_target(t) + (assign_op && (t.form == 0 || t.form >= 3) ? " = (" : ".set(") + render_scalar(sc) + ")");
     if (t.form >= 3) st.proxy_ops++;
     if (t.form == 2 || t.form == 4) st.handle_ops++;
     Val* n = t.form == 0 ? &m.docs[(size_t)t.doc].root : resolve(t, true);
@@ -616,7 +616,8 @@ class Runner {
       } else {
         on_target(*w, t, [&](auto&& x) { r = lib_set(x, sc, *w); });
       }
-      ret_check(r, expect, "set() returned " + std::string(r ? "true" : "false") + ", the model expects " + (expect ? "true" : "false"));
+      // operator= returns no status: overflowed() is then the only report
+      if (!(sc.assign && (t.form == 0 || t.form >= 3))) ret_check(r, expect, "set() returned " + std::string(r ? "true" : "false") + ", the model expects " + (expect ? "true" : "false"));
     }
     if (t.form == 0) {
       m.make_null(m.docs[(size_t)t.doc].root);
@@ -806,7 +807,8 @@ class Runner {
       };
       if (t.form == 0) doit(*w->docs[(size_t)t.doc]);
       else on_target(*w, t, doit);
-      ret_check(r, expect, "member assignment returned " + std::string(r ? "true" : "false") + ", the model expects the opposite");
+      if (!sc.assign)  // operator= on the member proxy returns no status
+        ret_check(r, expect, "member assignment returned " + std::string(r ? "true" : "false") + ", the model expects the opposite");
     }
     after_insert();
   }
@@ -834,7 +836,8 @@ class Runner {
       auto doit = [&](auto&& x) { r = lib_set(x[st_.index], sc, *w); };
       if (t.form == 0) doit(*w->docs[(size_t)t.doc]);
       else on_target(*w, t, doit);
-      ret_check(r, expect, "element assignment returned " + std::string(r ? "true" : "false") + ", the model expects the opposite");
+      if (!sc.assign)
+        ret_check(r, expect, "element assignment returned " + std::string(r ? "true" : "false") + ", the model expects the opposite");
     }
     after_insert();
   }
@@ -1018,7 +1021,7 @@ class Runner {
           Val* c = child(*n, st_, true);
           m.assign(*c, sc.v);
           for (auto& w : worlds)
-            ret_check(lib_set(w->handles[(size_t)hi].a[idx], sc, *w), true, "JsonArray element assignment returned false");
+            { bool r_ = lib_set(w->handles[(size_t)hi].a[idx], sc, *w); if (!sc.assign) ret_check(r_, true, "JsonArray element assignment returned false"); }
           after_insert();
           break;
         }
@@ -1087,7 +1090,7 @@ class Runner {
           m.assign(*c, sc.v);
           for (auto& w : worlds) {
             std::string tmp = key;
-            ret_check(lib_set(w->handles[(size_t)hi].o[tmp], sc, *w), true, "JsonObject member assignment returned false");
+            { bool r_ = lib_set(w->handles[(size_t)hi].o[tmp], sc, *w); if (!sc.assign) ret_check(r_, true, "JsonObject member assignment returned false"); }
           }
           after_insert();
           break;
